@@ -233,7 +233,7 @@ def run(c, a):
     # ---- per-path clauses from SchemaWalk
     if c.pid in ("C16", "C13"):
         schema = p_schema.export_schema(c)
-        obligs, r = p_schema.explore(c, schema, "walk.cfg")
+        obligs, r = p_schema.explore(c, schema, "walk_t.cfg" if c.tier == "thorough" else "walk.cfg")
         ns = [o for o in obligs if o["leaf"].startswith("ns")]
         if c.pid == "C16":
             acl = []
@@ -242,7 +242,7 @@ def run(c, a):
                     continue
                 for val in ("ns-allowed", "ns-forbidden", "ns-remote-ok", "ns-remote-bad"):
                     for bypass in (False, True):
-                        for variant in (("", "tail") if "events" in o["path"] else ("",)) + (("json",) if o["inblob"] else ()):
+                        for variant in (("", "tail") if "events" in o["path"] else ("",)) + (("json",) if o["inblob"] else ()) + ("fillbad",):
                             d = dict(o)
                             d.update(mode="acl", value=val, bypass=bypass, variant=variant, id=len(acl) + 1)
                             acl.append(d)
